@@ -474,12 +474,12 @@ func (d *textDoc) render() []byte {
 
 // edit is one word-level modification of a text.
 type edit struct {
-	Kind string `json:"k"` // del | suboov | subvoc | insoov | delline | dupline
+	Kind string `json:"k"` // del | delrun (Arg%10+2 consecutive words) | suboov | subvoc | insoov | delline | dupline
 	Pos  int    `json:"p"` // word index (or line index for line edits), taken modulo the current size
 	Arg  int    `json:"a"`
 }
 
-var editKinds = []string{"del", "del", "suboov", "suboov", "suboov", "subvoc", "insoov", "insoov", "delline", "dupline"}
+var editKinds = []string{"del", "del", "suboov", "suboov", "suboov", "subvoc", "insoov", "insoov", "delline", "dupline", "delrun"}
 
 func applyEdits(c *Classifier, b []byte, edits []edit, truncHead, truncTail int) []byte {
 	d := parseText(b)
@@ -509,6 +509,16 @@ func applyEdits(c *Classifier, b []byte, edits []edit, truncHead, truncTail int)
 				nl = append(nl, oovWord(c, 5000+e.Arg))
 				nl = append(nl, line[col:]...)
 				d.Lines[li] = nl
+			}
+		case "delrun":
+			for k := 0; k < e.Arg%10+2; k++ {
+				n := d.nwords()
+				if n <= 1 {
+					break
+				}
+				li, col := d.locate(minInt(((e.Pos%n)+n)%n, n-1))
+				line := d.Lines[li]
+				d.Lines[li] = append(append([]string{}, line[:col]...), line[col+1:]...)
 			}
 		case "delline":
 			k := ((e.Pos % len(d.Lines)) + len(d.Lines)) % len(d.Lines)
@@ -571,6 +581,9 @@ func genEdits(t *rapid.T, nwords int, maxPermille int) []edit {
 
 var thresholdMenu = []float64{0.7, 0.75, 0.8, 0.85, 0.9, 0.95, 0.99, 1.0}
 
+// thresholds for which t/(1-t) has a fractional part of at least .5 (rounding instead of truncating q shows there)
+var thresholdOdd = []float64{0.72, 0.78, 0.85, 0.87, 0.92, 0.95}
+
 func genThreshold(t *rapid.T, lo float64) float64 {
 	if lib.IntN(t, 0, 9, "thrKind") < 8 {
 		var menu []float64
@@ -584,6 +597,9 @@ func genThreshold(t *rapid.T, lo float64) float64 {
 			return 0.8
 		}
 		return lib.PickFloat(t, menu, "thr")
+	}
+	if lo <= 0.72 && lib.Bool(t, "thrOdd") {
+		return lib.PickFloat(t, thresholdOdd, "thrOddValue")
 	}
 	// two decimals keeps the number of distinct full-corpus classifiers per process small
 	return float64(lib.IntN(t, int(lo*100), 100, "thrPct")) / 100
@@ -632,6 +648,19 @@ func genSynthDoc(t *rapid.T, idx int, minWords, maxWords int) synthDoc {
 	return synthDoc{Cat: lib.PickStr(t, cats, "synthCat"), Name: fmt.Sprintf("Synth-%d", idx), Variant: fmt.Sprintf("v%d.txt", lib.IntN(t, 0, 2, "synthVar")), Text: sb.String()}
 }
 
+// refQ is the minimum run length implied by a threshold (4 words at 0.8), computed independently of the
+// classifier's own q so that a wrong q in the code under test does not silently narrow the checked domain.
+func refQ(threshold float64) int {
+	if threshold == 1.0 {
+		return 10
+	}
+	q := int(threshold / (1.0 - threshold))
+	if q < 1 {
+		q = 1
+	}
+	return q
+}
+
 func countNL(b []byte) int { return bytes.Count(b, []byte("\n")) }
 
 func minInt(a, b int) int {
@@ -653,6 +682,12 @@ type seg struct {
 	Words     int    `json:"w,omitempty"`
 	Lines     int    `json:"l,omitempty"`
 	Raw       []byte `json:"raw,omitempty"`
+	// EchoHead / EchoTail put a separate heading line (the first n words of the unedited text) before the segment and
+	// a footer line (its last n words) after it: a repeated phrase next to an edited copy makes the first candidate
+	// range wider than the span that is finally reported.
+	EchoHead int `json:"eh,omitempty"`
+	EchoTail int `json:"et,omitempty"`
+	EchoOff  int `json:"eo,omitempty"` // the phrase starts EchoOff words after the start / ends EchoOff words before the end
 }
 
 type recipe struct {
@@ -666,10 +701,12 @@ func (r recipe) build(c *Classifier) []byte {
 		switch s.Kind {
 		case "doc":
 			a := assets()
-			b = applyEdits(c, a[((s.Doc%len(a))+len(a))%len(a)].Content, s.Edits, s.TruncHead, s.TruncTail)
+			orig := a[((s.Doc%len(a))+len(a))%len(a)].Content
+			b = withEcho(orig, applyEdits(c, orig, s.Edits, s.TruncHead, s.TruncTail), s.EchoHead, s.EchoTail, s.EchoOff)
 		case "scen":
 			sc := scenarios()
-			b = applyEdits(c, sc[((s.Doc%len(sc))+len(sc))%len(sc)], s.Edits, s.TruncHead, s.TruncTail)
+			orig := sc[((s.Doc%len(sc))+len(sc))%len(sc)]
+			b = withEcho(orig, applyEdits(c, orig, s.Edits, s.TruncHead, s.TruncTail), s.EchoHead, s.EchoTail, s.EchoOff)
 		case "oov":
 			b = []byte(oovBlock(c, 100000+1000*i, s.Words, s.Lines))
 		case "raw":
@@ -683,15 +720,41 @@ func (r recipe) build(c *Classifier) []byte {
 	return buf.Bytes()
 }
 
+func withEcho(orig, edited []byte, head, tail, off int) []byte {
+	if head <= 0 && tail <= 0 {
+		return edited
+	}
+	w := strings.Fields(string(orig))
+	if off < 0 {
+		off = 0
+	}
+	var buf bytes.Buffer
+	if head > 0 && len(w) > off {
+		buf.WriteString(strings.Join(w[off:minInt(off+head, len(w))], " "))
+		buf.WriteString("\n\n")
+	}
+	buf.Write(edited)
+	if tail > 0 && len(w) > 0 {
+		if len(edited) > 0 && edited[len(edited)-1] != '\n' {
+			buf.WriteByte('\n')
+		}
+		buf.WriteString("\n")
+		e := len(w) - minInt(off, len(w)-1)
+		buf.WriteString(strings.Join(w[e-minInt(tail, e):e], " "))
+		buf.WriteString("\n")
+	}
+	return buf.Bytes()
+}
+
 func (r recipe) describe() string {
 	var parts []string
 	for _, s := range r.Segs {
 		switch s.Kind {
 		case "doc":
 			a := assets()
-			parts = append(parts, fmt.Sprintf("doc(%s,edits=%d,trunc=%d/%d)", a[((s.Doc%len(a))+len(a))%len(a)].key(), len(s.Edits), s.TruncHead, s.TruncTail))
+			parts = append(parts, fmt.Sprintf("doc(%s,edits=%d,trunc=%d/%d%s)", a[((s.Doc%len(a))+len(a))%len(a)].key(), len(s.Edits), s.TruncHead, s.TruncTail, echoDesc(s)))
 		case "scen":
-			parts = append(parts, fmt.Sprintf("scenario(%d,edits=%d,trunc=%d/%d)", s.Doc, len(s.Edits), s.TruncHead, s.TruncTail))
+			parts = append(parts, fmt.Sprintf("scenario(%d,edits=%d,trunc=%d/%d%s)", s.Doc, len(s.Edits), s.TruncHead, s.TruncTail, echoDesc(s)))
 		case "oov":
 			parts = append(parts, fmt.Sprintf("oov(%dw/%dl)", s.Words, s.Lines))
 		case "raw":
@@ -699,6 +762,13 @@ func (r recipe) describe() string {
 		}
 	}
 	return strings.Join(parts, " + ")
+}
+
+func echoDesc(s seg) string {
+	if s.EchoHead > 0 || s.EchoTail > 0 {
+		return fmt.Sprintf(",echo=%d/%d@%d", s.EchoHead, s.EchoTail, s.EchoOff)
+	}
+	return ""
 }
 
 // docs returns the asset indices used by the recipe.
@@ -729,7 +799,17 @@ func genDocSeg(t *rapid.T, thr float64, allowScen bool) seg {
 	if maxPermille < 20 {
 		maxPermille = 20
 	}
-	switch lib.Weighted(t, []int{25, 55, 10, 10}, "segShape") {
+	switch lib.Weighted(t, []int{25, 50, 8, 8, 9}, "segShape") {
+	case 4: // boundary case: exactly the error margin (+-1 word) is missing at the head or the tail, nothing else changed
+		k := int(float64(nw)*(1-thr)) + lib.IntN(t, -2, 1, "marginDelta")
+		if k < 1 {
+			k = 1
+		}
+		if lib.Bool(t, "marginAtHead") {
+			s.TruncHead = k
+		} else {
+			s.TruncTail = k
+		}
 	case 0: // pristine
 	case 1:
 		s.Edits = genEdits(t, nw, maxPermille)
@@ -739,6 +819,24 @@ func genDocSeg(t *rapid.T, thr float64, allowScen bool) seg {
 	case 3:
 		s.TruncTail = lib.IntN(t, 1, 1+nw*maxPermille/2000, "truncTail")
 		s.Edits = genEdits(t, nw, maxPermille/4)
+	}
+	if nw > 40 && lib.IntN(t, 0, 5, "echo") == 0 {
+		// a heading / footer line repeating a phrase near the start / end of the text; in the copy one word of that
+		// phrase is replaced and a run of words next to it is missing, so that the heading aligns with the copy
+		s.EchoOff = lib.IntN(t, 0, 8, "echoOff")
+		n := lib.IntN(t, 5, 12, "echoWords")
+		run := lib.IntN(t, 2, 8, "echoGap")
+		if lib.Bool(t, "echoHead") {
+			s.EchoHead = n
+			s.Edits = []edit{{Kind: "delrun", Pos: s.EchoOff + n + lib.IntN(t, 1, 4, "echoGapAt"), Arg: run - 2},
+				{Kind: "suboov", Pos: s.EchoOff + lib.IntN(t, 0, n-1, "echoSub"), Arg: lib.IntN(t, 0, 3000, "echoArg")}}
+		} else {
+			s.EchoTail = n
+			end := nw - s.EchoOff
+			s.Edits = []edit{{Kind: "suboov", Pos: end - 1 - lib.IntN(t, 0, n-1, "echoSub"), Arg: lib.IntN(t, 0, 3000, "echoArg")},
+				{Kind: "delrun", Pos: end - n - run - lib.IntN(t, 1, 4, "echoGapAt"), Arg: run - 2}}
+		}
+		s.TruncHead, s.TruncTail = 0, 0
 	}
 	return s
 }
@@ -783,6 +881,9 @@ func recipeClasses(r recipe) []string {
 			}
 			if s.TruncTail > 0 {
 				cls["truncated-tail"] = true
+			}
+			if s.EchoHead > 0 || s.EchoTail > 0 {
+				cls["echoed-heading-or-footer"] = true
 			}
 		case "oov":
 			cls["oov-context"] = true
